@@ -235,7 +235,7 @@ class Loop:
         return Poly.sym(self.var)
 
     def __repr__(self):
-        return f"for {self.var} in [{self.lo!r}, {self.hi!r}) step {self.step!r}"
+        return f"for {self.var} in [{self.lo!r}, {self.hi!r}) step {self.step!r}" + (" (left early by break)" if getattr(self, "broken", None) else "")
 
 
 class Store:
@@ -417,7 +417,15 @@ class KEval:
                 name = unparse(e)
             S.raises.append((name, guards + tuple(env.get("#path", ())), st))
             return "raise"
-        if isinstance(st, (ast.Continue, ast.Break)):
+        if isinstance(st, ast.Continue):
+            return "exit"
+        if isinstance(st, ast.Break):
+            # leaves the innermost loop for good: that loop no longer covers its range (rules that need a full traversal look at Loop.kind / Loop.broken)
+            if loops:
+                lp = loops[-1]
+                lp.broken = getattr(lp, "broken", ()) + (tuple(guards) + tuple(env.get("#path", ())),)
+                if lp.kind == "range":
+                    lp.kind = "range-break"
             return "exit"
         if isinstance(st, ast.Expr):
             self.ev(st.value, env, S, f, guards, loops, depth)
